@@ -1078,7 +1078,14 @@ def instrument(line_modules=(), instr_functions=(), exclude=()):
         offs -= {i.offset for i in instrs if i.opname in ("RESUME", "COPY_FREE_VARS", "MAKE_CELL", "RETURN_GENERATOR")}
         return offs
 
+    resolved = []
     for f in instr_functions:
+        if isinstance(f, tuple):      # (owner, "name"): resolved leniently so that a renamed method does not break
+            f = getattr(f[0], f[1], None)   # the check (its module/class should also be listed in line_modules)
+            if f is None:
+                continue
+        resolved.append(f)
+    for f in resolved:
         if isinstance(f, (staticmethod, classmethod)):
             f = f.__func__
         f = getattr(f, "__func__", f)
